@@ -224,7 +224,7 @@ class _Tagged:
 class Obs:
     """What one step showed."""
 
-    __slots__ = ("exc", "where", "ret", "sent", "wire", "callbacks", "subs", "pubs", "eff_line")
+    __slots__ = ("exc", "where", "ret", "sent", "wire", "callbacks", "subs", "pubs", "eff_line", "enabled")
 
     def __init__(self):
         self.exc = None  # None or dict(type, text, frames)
@@ -236,6 +236,7 @@ class Obs:
         self.subs = []
         self.pubs = []
         self.eff_line = None
+        self.enabled = True
 
     def lines(self):
         return [s for s, _ in self.sent]
